@@ -517,7 +517,9 @@ pub fn run_check(engine: &dyn Engine, spec: &CheckSpec) -> i32 {
     } else {
         for (v, path, _) in &unlisted {
             println!("violation: {}\n  {}", v.sig_string(), v.detail.replace('\n', "\n  "));
-            println!("VIOLATION property={} replay={}", v.property, path.display());
+            // a verdict blamed on a neighbouring property that this check also owns is reported as a
+            // violation of the property this check decides
+            println!("VIOLATION property={} replay={}", spec.property, path.display());
         }
         1
     }
